@@ -176,21 +176,36 @@ func (c *clientHelloConn) Read(b []byte) (n int, err error) {
 		return // need to read more bytes for header
 	}
 
-	// peek at the header bytes; nothing is consumed from the buffer
+	// peek at the buffered bytes; nothing is consumed from the buffer
 	// until the whole ClientHello has arrived, because it may take
-	// several reads off the wire to get it
-	hdr := c.buf.Bytes()[:5]
-
-	// get length of the ClientHello message and read it
-	length := int(uint16(hdr[3])<<8 | uint16(hdr[4]))
-	if c.buf.Len() < 5+length {
-		return // need to read more bytes
-	}
-	c.buf.Next(5)
-	hello := make([]byte, length)
-	_, err = io.ReadFull(c.buf, hello)
-	if err != nil {
-		return
+	// several reads off the wire to get it. The record layer may also
+	// carry the message in several handshake records (the TLS server
+	// puts them together): its own length field says when it is complete.
+	var hello []byte
+	rest := c.buf.Bytes()
+	for records := 0; ; records++ {
+		if len(rest) < 5 {
+			return // need to read more bytes for the record header
+		}
+		length := int(uint16(rest[3])<<8 | uint16(rest[4]))
+		if len(rest) < 5+length {
+			return // need to read more bytes
+		}
+		isHandshake := rest[0] == 22
+		hello = append(hello, rest[5:5+length]...)
+		rest = rest[5+length:]
+		if !isHandshake || length == 0 {
+			break // not what a ClientHello comes in: parsed as it is
+		}
+		if len(hello) >= 4 {
+			msgLen := 4 + (int(hello[1])<<16 | int(hello[2])<<8 | int(hello[3]))
+			if len(hello) >= msgLen {
+				if records > 0 {
+					hello = hello[:msgLen]
+				}
+				break
+			}
+		}
 	}
 	bufpool.Put(c.buf) // buffer no longer needed
 
